@@ -479,9 +479,16 @@ impl GrlReteLoader {
     fn extract_deps_from_node(node: &ReteUlNode, deps: &mut Vec<String>) {
         match node {
             ReteUlNode::UlAlpha(alpha) => {
-                // Extract fact type from field (e.g., "Person.age" -> "Person")
+                // Extract fact type from field (e.g., "Person.age" -> "Person").
+                // Test CE fields look like "test(Person.age % 3 == 0)": take the
+                // identifier right before the first dot, not the raw prefix.
                 if let Some(dot_pos) = alpha.field.find('.') {
-                    let fact_type = alpha.field[..dot_pos].to_string();
+                    let prefix = &alpha.field[..dot_pos];
+                    let fact_type = prefix
+                        .rsplit(|c: char| !(c.is_alphanumeric() || c == '_'))
+                        .next()
+                        .unwrap_or(prefix)
+                        .to_string();
                     deps.push(fact_type);
                 }
             }
